@@ -491,11 +491,7 @@ def evaluate_z3_seq_concat(
     if expr.decl().kind() != z3.Z3_OP_SEQ_CONCAT:
         return Nothing
 
-    return Some(
-        construct_result(
-            lambda args: cast(str, args[0]) + cast(str, args[1]), children_results
-        )
-    )
+    return Some(construct_result(lambda args: "".join(args), children_results))
 
 
 def evaluate_z3_seq_at(
@@ -504,11 +500,12 @@ def evaluate_z3_seq_at(
     if expr.decl().kind() != z3.Z3_OP_SEQ_AT:
         return Nothing
 
-    return Some(
-        construct_result(
-            lambda args: cast(str, args[0])[cast(int, args[1])], children_results
-        )
-    )
+    def constructor(args):
+        # SMT-LIB: The empty string if the index is out of bounds.
+        string, idx = cast(str, args[0]), cast(int, args[1])
+        return string[idx] if 0 <= idx < len(string) else ""
+
+    return Some(construct_result(constructor, children_results))
 
 
 def evaluate_z3_seq_extract(
@@ -517,14 +514,15 @@ def evaluate_z3_seq_extract(
     if expr.decl().kind() != z3.Z3_OP_SEQ_EXTRACT:
         return Nothing
 
-    return Some(
-        construct_result(
-            lambda args: cast(str, args[0])[
-                cast(int, args[1]) : cast(int, args[1]) + cast(int, args[2])
-            ],
-            children_results,
-        )
-    )
+    def constructor(args):
+        # SMT-LIB: The empty string if the start index is out of bounds or the
+        # length is not positive.
+        string, start, length = cast(str, args[0]), cast(int, args[1]), cast(int, args[2])
+        if start < 0 or start >= len(string) or length <= 0:
+            return ""
+        return string[start : start + length]
+
+    return Some(construct_result(constructor, children_results))
 
 
 def evaluate_z3_str_to_code(
@@ -539,7 +537,8 @@ def evaluate_z3_str_to_code(
 
     return Some(
         construct_result(
-            lambda args: ord(args[0]),
+            # SMT-LIB: -1 if the argument is not a string of length 1.
+            lambda args: ord(args[0]) if len(args[0]) == 1 else -1,
             children_results,
         )
     )
